@@ -490,10 +490,57 @@ def apply_op(obj, model, op, arg):
             new["annot"]["tag"] = [float(q) for q in range(n)]
             new["annot"]["tag"][k] = 2.25
         return obj, new
+    if op == 11:                     # re-declared annotation categories, atoms with long strings, mismatching bonds
+        if n == 0:
+            return obj, model
+        import biotite.structure as struc
+        new = m_copy(model)
+        k = arg % n
+        if arg % 3 == 0:
+            # an existing category is re-declared with a more general dtype: old values stay, new ones fit
+            obj.add_annotation("res_id", float)
+            obj.res_id[k] = 1.5
+            new["annot"]["res_id"][k] = 1.5
+            obj.add_annotation("atom_name", "U12")
+            obj.atom_name[(k + 1) % n] = "ATOMNAME7"
+            new["annot"]["atom_name"][(k + 1) % n] = "ATOMNAME7"
+            obj.add_annotation("res_name", "U1")          # (less general than the existing one: nothing changes)
+            return obj, new
+        if arg % 3 == 1:
+            # an incompatible re-declaration is refused and changes nothing
+            try:
+                obj.add_annotation("res_id", "U3")
+            except ValueError:
+                return obj, model
+            raise AssertionError("add_annotation('res_id', 'U3') on an integer category was accepted")
+        if is_stack:
+            # a model can only be replaced by an array with the same bonds: one side without a BondList is a mismatch
+            src = obj[0].copy()
+            if src.bonds is None:
+                src.bonds = struc.BondList(n)
+                if n >= 2:
+                    src.bonds.add_bond(0, 1, 1)
+            else:
+                src.bonds = None
+            try:
+                obj[0] = src
+            except ValueError:
+                return obj, model
+            raise AssertionError("stack[0] = array with different bonds (one side has none) was accepted")
+        # list of atoms -> array -> list of atoms is the identity, also for strings longer than the default widths
+        atoms = [obj.get_atom(i) for i in range(n)]
+        atoms[k] = struc.Atom(atoms[k].coord, **{c: getattr(atoms[k], c) for c in obj.get_annotation_categories()})
+        atoms[k].chain_id, atoms[k].res_name, atoms[k].atom_name, atoms[k].element = "CHAIN5", "LONGRESN", "ATOMNAME7", "Xx1"
+        rebuilt = struc.array(atoms)
+        for i in range(n):
+            for c in obj.get_annotation_categories():
+                if getattr(rebuilt.get_atom(i), c) != getattr(atoms[i], c):
+                    raise AssertionError(f"array(atoms)[{i}].{c} = {getattr(rebuilt.get_atom(i), c)!r}, the atom had {getattr(atoms[i], c)!r}")
+        return obj, model
     return obj, model
 
 
-NOPS = 11
+NOPS = 12
 
 
 def run_history(kind, with_bonds, with_box, ops):
